@@ -62,6 +62,11 @@ SITES = [
     ('setup_stdin_value', ('setup',), ['stdin = -stdout-from % {S}'], 'lazy_stdin'),
     ('exit_code_from', ('assert',), ['exit-code -from % {S}', '  == 0'], 'instr'),
     ('stdout_from', ('assert',), ['stdout -from % {S}', '  is-empty'], 'instr'),
+    # the program whose output is looked at carries a transformation that runs a program: that one stalls
+    ('stdout_from_program_transformed_by_run', ('assert',), ['stdout -from % fast{N}', '  -transformed-by run % {S}', '  is-empty'],
+     'after_fast'),
+    ('stderr_from_program_transformed_by_run', ('assert',), ['stderr -from % fast{N}', '  -transformed-by run % {S}', '  is-empty'],
+     'after_fast'),
     ('stderr_from', ('assert',), ['stderr -from % {S}', '  is-empty'], 'instr'),
     ('contents_matcher_run', ('assert',), ['contents -rel-act g.txt : run % {S}'], 'matcher'),
     ('contents_transformer_run', ('assert',), ['contents -rel-act g.txt : -transformed-by run % {S}', '  is-empty'],
@@ -382,6 +387,9 @@ def simulate(plan):
                     del lazy[:]  # a later `stdin =` replaces the earlier one: only the last program is ever started
                     lazy.append(e[1])
                     continue
+                if rec['kind'] == 'after_fast':
+                    if fast(ph, 'fast%d' % rec['n']):
+                        return True
                 if start(ph, e[1]):
                     return True
                 if rec['kind'] == 'stdin':
